@@ -56,6 +56,24 @@ func deepCopy(v interface{}) interface{} {
 	return v
 }
 
+// a result belongs to its caller: after formatting it the caller overwrites it.  If the callee handed out memory it
+// still uses (a cache, an argument), other callers see wrong answers or the race detector sees the write.
+func scrU64s(r []uint64) string {
+	s := showU64s(r)
+	for i := range r {
+		r[i] = ^r[i]
+	}
+	return s
+}
+
+func scrI32s(r []int32) string {
+	s := showI32s(r)
+	for i := range r {
+		r[i] = ^r[i]
+	}
+	return s
+}
+
 func safeCall(f func() string) (s string) {
 	defer func() {
 		if r := recover(); r != nil {
@@ -118,10 +136,10 @@ func runConc(tier string, seed int64) int {
 		share(id+".s32", func() interface{} { return s32 })
 		share(id+".s32b", func() interface{} { return s32b })
 		share(id+".r64t", func() interface{} { return r64t })
-		add(id+".IndexRank64", func() string { return showI32s(bitmap.IndexRank64(ws, true)) })
-		add(id+".IndexRank128", func() string { return showI32s(bitmap.IndexRank128(ws)) })
-		add(id+".IndexSelect32", func() string { return showI32s(bitmap.IndexSelect32(ws)) })
-		add(id+".ToArray", func() string { return showI32s(bitmap.ToArray(ws)) })
+		add(id+".IndexRank64", func() string { return scrI32s(bitmap.IndexRank64(ws, true)) })
+		add(id+".IndexRank128", func() string { return scrI32s(bitmap.IndexRank128(ws)) })
+		add(id+".IndexSelect32", func() string { return scrI32s(bitmap.IndexSelect32(ws)) })
+		add(id+".ToArray", func() string { return scrI32s(bitmap.ToArray(ws)) })
 		for q := 0; q < nQueries; q++ {
 			i := int32(g.intn(L))
 			e := i + int32(g.intn(L-int(i)+1))
@@ -134,7 +152,7 @@ func runConc(tier string, seed int64) int {
 			add(id+".Get", func() string {
 				return fmt.Sprint(bitmap.Get(ws, i), bitmap.Get1(ws, i), bitmap.SafeGet(ws, i), bitmap.SafeGet1(ws, i-100))
 			})
-			add(id+".Slice", func() string { return showU64s(bitmap.Slice(ws, i, e)) })
+			add(id+".Slice", func() string { return scrU64s(bitmap.Slice(ws, i, e)) })
 			w := int32(1) << uint(g.intn(7))
 			gi := int32(g.intn(L / int(w)))
 			add(id+".Getw", func() string { return fmt.Sprint(bitmap.Getw(ws, gi, w)) })
@@ -146,7 +164,7 @@ func runConc(tier string, seed int64) int {
 		}
 		vs := g.words(5, false)
 		share(id+".joinvals", func() interface{} { return vs })
-		add(id+".Join", func() string { return showU64s(bitmap.Join(vs, 16)) })
+		add(id+".Join", func() string { return scrU64s(bitmap.Join(vs, 16)) })
 		add(id+".Fmt", func() string { return bitmap.Fmt(vs) + bitmap.Fmt(ws[0]) + bitmap.Fmt(int32(len(ws))) })
 		ps := bitmap.ToArray(ws)
 		if len(ps) > 40 {
@@ -157,8 +175,8 @@ func runConc(tier string, seed int64) int {
 		share(id+".positions", func() interface{} { return ps })
 		share(id+".subs", func() interface{} { return subs })
 		share(id+".sizes", func() interface{} { return sizes })
-		add(id+".Of", func() string { return showU64s(bitmap.Of(ps)) + showU64s(bitmap.Of(ps, int32(L+70))) })
-		add(id+".OfMany", func() string { return showU64s(bitmap.OfMany(subs, sizes)) })
+		add(id+".Of", func() string { return scrU64s(bitmap.Of(ps)) + scrU64s(bitmap.Of(ps, int32(L+70))) })
+		add(id+".OfMany", func() string { return scrU64s(bitmap.OfMany(subs, sizes)) })
 	}
 
 	// a large sparse bitmap: zero runs of more than 16384 bits, queries ending strictly inside the bitmap
@@ -186,6 +204,23 @@ func runConc(tier string, seed int64) int {
 		}
 	}
 
+	// a bitmap of more than 65536 bits whose upper part is empty: scans that run over the whole of it
+	for _, l := range []int{1100, g.n(5000, 300000)} {
+		ws := make([]uint64, l)
+		for _, k := range []int{0, 1, 2, 40} {
+			ws[k] = g.r.Uint64() | 1
+		}
+		id := fmt.Sprintf("longscan%d", l)
+		share(id+".words", func() interface{} { return ws })
+		top := int32(64 * l)
+		for q := 0; q < nQueries/2; q++ {
+			i := int32(64*41 + g.intn(64*20))
+			e := top - int32(g.intn(3)*64) - int32(g.intn(2))
+			add(id+".NextOne", func() string { return fmt.Sprint(bitmap.NextOne(ws, i, e), bitmap.NextOne(ws, 0, e), bitmap.PrevOne(ws, i, e)) })
+			add(id+".PrevOne", func() string { return fmt.Sprint(bitmap.PrevOne(ws, 0, e), bitmap.PrevOne(ws, 64, top)) })
+		}
+	}
+
 	// two tree shapes of the same height >= 16 (anything remembered per height meets a different shape)
 	for _, t := range []int32{0x1ffff, 0x18001, 0x10101} {
 		t := t
@@ -195,8 +230,9 @@ func runConc(tier string, seed int64) int {
 		add(id+".Decode", func() string {
 			ps := bmtree.Decode(t, bm)
 			h := uint64(14695981039346656037)
-			for _, p := range ps {
+			for i, p := range ps {
 				h = (h ^ p) * 1099511628211
+				ps[i] = ^p
 			}
 			return fmt.Sprint(len(ps), h)
 		})
@@ -241,12 +277,12 @@ func runConc(tier string, seed int64) int {
 		id := fmt.Sprintf("keys%d", k)
 		share(id, func() interface{} { return keys })
 		sb := sigbits.New(keys)
-		add(id+".FirstDiffBits", func() string { return showI32s(sigbits.FirstDiffBits(keys)) })
-		add(id+".ShardByPrefix", func() string { a, b := sigbits.ShardByPrefix(keys, 3); return showI32s(a) + ";" + showI32s(b) })
+		add(id+".FirstDiffBits", func() string { return scrI32s(sigbits.FirstDiffBits(keys)) })
+		add(id+".ShardByPrefix", func() string { a, b := sigbits.ShardByPrefix(keys, 3); return scrI32s(a) + ";" + scrI32s(b) })
 		if len(keys) >= 2 {
 			add(id+".CountPrefixes", func() string { a, b := sb.CountPrefixes(0, int32(len(keys)), 9); return fmt.Sprint(a) + showI32s(b) })
 		}
-		add(id+".PathsOf", func() string { return showU64s(bmtree.PathsOf(keys, 3, 11, true)) })
+		add(id+".PathsOf", func() string { return scrU64s(bmtree.PathsOf(keys, 3, 11, true)) })
 		for q := 0; q < nQueries/4; q++ {
 			s := keys[g.intn(len(keys))]
 			s2 := keys[g.intn(len(keys))]
@@ -286,8 +322,10 @@ func runConc(tier string, seed int64) int {
 		id := fmt.Sprintf("tree%d", k)
 		bm := g.words((int(t)+63)/64, false)
 		share(id+".bm", func() interface{} { return bm })
-		add(id+".Decode", func() string { return showU64s(bmtree.Decode(t, bm)) })
-		add(id+".AllPaths", func() string { return showU64s(bmtree.AllPaths(t, 0, 1<<63)) })
+		add(id+".Decode", func() string { return scrU64s(bmtree.Decode(t, bm)) })
+		add(id+".AllPaths", func() string { return scrU64s(bmtree.AllPaths(t, 0, 1<<63)) })
+		lo, hi := mkPath(h, 1, 0), mkPath(h, h, 1<<uint(h)-2)
+		add(id+".AllPathsRange", func() string { return scrU64s(bmtree.AllPaths(t, lo, hi)) + scrU64s(bmtree.AllPaths(t, lo+1, 1<<63)) })
 		for q := 0; q < nQueries/2; q++ {
 			l, pfx := g.randNode(h)
 			p := mkPath(h, l, pfx)
